@@ -2070,9 +2070,9 @@ def run(tier):
     rn = Runner(ck)
     r = ck.rng
     quick = tier == "quick"
-    n_base = 60 if quick else 1500
+    n_base = 60 if quick else 1000
     n_double = 6 if quick else 12
-    n_allsites = 6 if quick else 150      # base schemas on which every operator is applied at every site
+    n_allsites = 6 if quick else 100      # base schemas on which every operator is applied at every site
     n_raw = 500 if quick else 15000
     ck.rule = (f"{n_base} schemas from the valid-schema generator (all kinds, interface hierarchies, recursive inputs with "
                "nullable/list breaks, OneOf, custom directives, non-default roots, literal/value/internal defaults), each built "
